@@ -64,6 +64,11 @@ TABLE = {
             'path advances the step counter and steps past the end are refused; the SASL and SASL 2 managers may complete with success only behind a check on the mechanism object and must hand success data to it (found the early-<success/> defect, '
             'fixed); proof derives from "Client Key", stored signature from "Server Key", one hash algorithm source.',
             'That the response bytes equal what RFC 5802/2831/HT prescribe for all credentials, salts and nonces (normalisation, quoting grammar) is a value-level claim needing an independent implementation at run time: not decided.', 'DESIGN.md §2 C06'),
+    'C07': ('typestate path exploration (finish/erase pairing on the request table; promise must-complete over every function and continuation holding a QXmppPromise, with latch and zero-iteration handling) + abstract evaluation of the reply handler per hostile reply + must-call of cancellation on session ends',
+            'Static: on every path of handleStanza/finish/cancelAll a completion is followed by the erase of that entry and nothing is erased uncompleted; the table has a closed writer set; for each hostile reply class (not <iq/>, request-typed, '
+            'unknown id, foreign non-empty from) no completion or erase is reachable and false is returned; requests need a valid unused id and an addressee; destructor, non-resumed session open and non-resumable close cancel everything; '
+            'every function/lambda holding a promise finishes it once or hands it on on all paths (85 holders; zero-iteration loops checked; found and fixed the MAM empty-page hang).',
+            'Interleavings of several outstanding requests with reconnects, completion order, and that a remote entity ever replies are history-level and not decided; latch arithmetic is trusted; negotiation-internal promises are left to C10.', 'DESIGN.md §2 C07'),
 }
 
 NOT_APPLICABLE_REASON = 'check not built yet in this session (see DESIGN.md); listed here until qxverif/rules/<id>.py exists'
